@@ -250,6 +250,9 @@ func (sc *Scanner) scanEscape(ch int, buf *bytes.Buffer) error {
 				bytes = append(bytes, byte(sc.Next()))
 			}
 			val, _ := strconv.ParseInt(string(bytes), 10, 32)
+			if val > 255 {
+				return sc.Error("\\"+string(bytes), "escape sequence too large")
+			}
 			writeChar(buf, int(val))
 		} else {
 			writeChar(buf, ch)
